@@ -264,6 +264,13 @@ theorem first_entry_from_earlier_file (R1 R2 : Registry) (cc code : Str) (a : Li
     | cons x t => rfl
 
 /-! Non-vacuity -/
+example :
+    let e1 : BankEntry := ⟨[68, 69], [49], some [65], true, none, [], []⟩
+    let e2 : BankEntry := ⟨[68, 69], [49], some [66], false, none, [], []⟩
+    let e3 : BankEntry := ⟨[68, 69], [50], some [67], false, none, [], []⟩
+    (Registry.byBankCode ([e1] ++ [e2, e3]) [68, 69] [49] = some [e1, e2]) ∧
+    (Registry.byBankCode ([e1] ++ [e3]) [68, 69] [49] = Registry.byBankCode [e1] [68, 69] [49]) := by
+  decide
 example : untouched (.obj [([97], .obj [([98], .num 1)])]) [[97], [99]] = true := by decide
 example : (getPath (J.merge (.obj [([97], .obj [([98], .num 1), ([99], .num 5)])])
     (.obj [([97], .obj [([98], .num 2)])])) [[97], [99]]).map (J.eqv · (.num 5)) = some true := by
